@@ -344,3 +344,88 @@ func scenarioC14(t *testing.T, root string, seed uint64, replay *c14Params, tier
 }
 
 var _ = base64.URLEncoding
+
+// ---- C14k: the cleaner itself dies --------------------------------------------------------------
+//
+// "never removes part of an entry": the process is killed before every filesystem operation of
+// clean() in turn; afterwards whatever still exists under a key path must retrieve completely.
+
+func scenarioC14k(t *testing.T, root string, seed uint64, replay *c14Params, tier string) vcResult {
+	p := genC14(seed)
+	if replay != nil {
+		p = *replay
+	}
+	p.Ops = nil
+	p.NewOnes = nil
+	res := vcResult{Mode: "c14k", Seed: seed, Stats: map[string]int64{}, Params: map[string]interface{}{"compress": p.Compress, "entries": len(p.Entries)}}
+	crashAt := int64(0)
+	if len(p.Choices) == 1 {
+		crashAt = int64(p.Choices[0]) // replay: the crash point
+	}
+	run := func(n int64) (ops int64, bad string) {
+		env := newEnv(root, p.Compress)
+		bubble(t, seed, "first", nil, func(s *verifsim.Scheduler) {
+			verifsim.ResetFS()
+			pre := env.newCache()
+			paths := make([]string, len(p.Entries))
+			for i := range p.Entries {
+				e := &p.Entries[i]
+				tg := c14Target(e.Name, e.Tree.Outs, "seed")
+				wipe(env.outDir(tg))
+				writeTree(env.outDir(tg), e.Tree)
+				s.RunTasks([]verifsim.TaskSpec{{ID: "pre", Proc: "pre", Fn: func() { pre.Store(tg, e.key(), e.Tree.Outs) }}})
+				paths[i] = pre.getPath(tg, e.key(), "")
+				at := time.Now().Add(-time.Duration(e.AgeSec) * time.Second)
+				os.Chtimes(paths[i], at, at)
+			}
+			c := env.newCache()
+			verifsim.ResetFS()
+			if n > 0 {
+				verifsim.SetFaultPlan([]verifsim.Fault{{Kind: "crash", At: n}}, seed)
+			}
+			s.RunTasks([]verifsim.TaskSpec{{ID: "clean", Proc: "C", Fn: func() { c.clean(0, 0) }}})
+			ops = verifsim.FSOps()
+			verifsim.ResetFS()
+			c2 := env.newCache()
+			for i := range p.Entries {
+				e := &p.Entries[i]
+				if _, err := os.Lstat(paths[i]); err != nil {
+					continue
+				}
+				tg := c14Target(e.Name, e.Tree.Outs, fmt.Sprintf("chk%d", i))
+				wipe(env.outDir(tg))
+				var hit bool
+				s.RunTasks([]verifsim.TaskSpec{{ID: "chk", Proc: "chk", Fn: func() { hit = c2.Retrieve(tg, e.key(), e.Tree.Outs) }}})
+				got := snapTree(env.outDir(tg), e.Tree.Outs)
+				if hit && !sameSnap(got, modelTree(e.Tree)) {
+					bad = fmt.Sprintf("the cleaner was killed before its FS operation %d; entry %s still exists and retrieving it reports a hit with %v, stored was %v", n, paths[i], got, modelTree(e.Tree))
+				}
+			}
+		})
+		return
+	}
+	points := []int64{crashAt}
+	if crashAt == 0 {
+		n, _ := run(0)
+		res.Evals++
+		points = nil
+		for k := int64(1); k <= n; k++ {
+			points = append(points, k)
+		}
+		res.Stats["clean_ops"] = n
+	}
+	for _, k := range points {
+		_, bad := run(k)
+		res.Evals++
+		res.Stats["crashes_fired"]++
+		res.Sigs = append(res.Sigs, fmt.Sprintf("c14k/%d/%d", seed, k))
+		if bad != "" {
+			q := p
+			q.Choices = []int{int(k)}
+			res.Violation = &vcViolation{Class: "partial-entry-after-cleaner-crash", Detail: bad, Replay: map[string]interface{}{"params": q}}
+			break
+		}
+	}
+	res.Nontrivial = len(res.Sigs)
+	return res
+}
